@@ -45,6 +45,21 @@ def gen_cases(rng, tier):
         else:
             pts = [g(x0), g(y0), g(x0 + run), g(y0 + rng.choice([-1, 1]) * (512 + rng.choice([-1, 0, 1]) / 64.0))]
         cases.append(("line_edge", pts + [rng.choice([0, 0, 2])]))
+    # QuadraticEdge (set-up of the forward differences and the update loop), bit-exact: y-monotone quads as the edge builder
+    # hands them over (the raw hook asserts y0 <= y1 <= y2 or the reverse), shift 0 (aliased) and 2 (anti-aliased)
+    for i in range(1500 if tier == "quick" else 20000):
+        k = rng.random()
+        span = rng.choice([3.0, 20.0, 60.0, 300.0, 2000.0])
+        ys = sorted(rng.uniform(-5, span) for _ in range(3))
+        if rng.random() < 0.5:
+            ys.reverse()
+        if k < 0.2:
+            ys[1] = ys[0] if rng.random() < 0.5 else ys[2]
+        xs = [rng.uniform(-5, span) for _ in range(3)]
+        if k > 0.9:
+            xs = [xs[0]] * 3
+        q = (lambda v: g(v)) if rng.random() < 0.6 else (lambda v: f2b(v))
+        cases.append(("quad_edge", [q(xs[0]), q(ys[0]), q(xs[1]), q(ys[1]), q(xs[2]), q(ys[2]), rng.choice([0, 0, 2])]))
     # (b) polygons inside the clip, bit-exact spans
     m = 1500 if tier == "quick" else 20000
     for i in range(m):
@@ -144,7 +159,7 @@ def gen_cases(rng, tier):
 
 
 def oracle(suite, args, out):
-    if suite == "line_edge":
+    if suite in ("line_edge", "quad_edge"):
         return None   # crate-internal function driven directly: its debug assertions are preconditions
     if out.startswith(("PANIC", "CRASH", "HANG")):
         return "implementation did not return: " + out[:200]
@@ -172,7 +187,7 @@ def known_class(suite, args, out, what):
 def relation(suite, args, mo, io):
     if mo == io or mo.strip() == "-9":
         return True
-    if mo.strip() == "-1" and (io.startswith("PANIC") or suite == "line_edge"):
+    if mo.strip() == "-1" and (io.startswith("PANIC") or suite in ("line_edge", "quad_edge")):
         # -1 = a debug assertion of the fixed-point conversion fails: a panic in checked builds, an unspecified value in
         # release builds (the raw LineEdge hook is never reached with such coordinates through the public API: the edge
         # builder clips first)
@@ -183,6 +198,9 @@ def relation(suite, args, mo, io):
 def nontrivial_tag(suite, args, out):
     if suite == "line_edge":
         return "edge" if out.strip() != "-2" else None
+    if suite == "quad_edge":
+        o = out.split()
+        return "quad:%s" % ("many" if o and o[0].isdigit() and int(o[0]) > 2 else "few") if o and o[0].isdigit() and int(o[0]) > 0 else None
     if suite == "fill_spans":
         return "spans" if len(out.split()) >= 3 else None
     o = out.split()
